@@ -7,7 +7,7 @@ compared with the spec digest.  Hash functions are uninterpreted-but-determinist
 `hash(a) == hash(b)` is provable exactly when the engine can show a == b (a violation needs a != b, which the
 replay on the real code then confirms with real SHA-256)."""
 from .common import *  # noqa
-from .txcodec import (lst, tup, ntx, ntxin, ntxout, U32Model, U32, H20, H32, P2PKH, P2WPKH, P2TR, W300,
+from .txcodec import (lst, tup, ntx, ntxin, ntxout, U32, H20, H32, P2PKH, P2WPKH, P2TR, W300,
                       rand_ntxin, rand_ntxout, rand_witness, std_script, pick, U32B, rand_cmds)
 
 H = "verif.harness.sighash."
@@ -28,7 +28,6 @@ def spent_of(*spks):
 
 SIG64 = "bytes:64"
 SIG65 = "bytes:65"
-ANNEX = [const(b"\x50"), ("bytes", 0, 40)]     # (spelled as prefix + rest in generators; symbolic annexes are bytes with requires)
 
 
 # ---------------------------------------------------------------------------- concrete generators
@@ -51,6 +50,8 @@ def taproot_witness(rng, mode):
         return []
     if mode.startswith("key"):
         sig = rand_bytes(rng, rng.choice([64, 65]))
+        if rng.random() < 0.15:
+            sig = b"\x50" + sig[1:]           # a signature may begin with the annex tag byte
         w = [sig]
     else:
         script = __import__("verif.specs", fromlist=["txwire"]).txwire.script_ser(
@@ -62,21 +63,32 @@ def taproot_witness(rng, mode):
     return w
 
 
+STD_KINDS = ["p2pkh", "p2sh", "p2wpkh", "p2wsh", "p2tr", "multisig"]
+
+
+def std5(rng, kind=None):
+    """scripts of the standard kinds (no 75-byte push: that serialiser defect belongs to C04)"""
+    kind = kind or rng.choice(STD_KINDS + ["opreturn"])
+    if kind == "opreturn":
+        return [0x6A, rand_bytes(rng, rng.choice([0, 20, 40, 76, 80]))]
+    return std_script(rng, kind)
+
+
 def spk_for(rng, alg):
     if alg == "legacy":
-        return std_script(rng, rng.choice(["p2pkh", "multisig", "p2sh", "rand"]))
+        return std5(rng, rng.choice(["p2pkh", "multisig", "p2sh"]))
     if alg == "bip143":
         return std_script(rng, "p2wpkh")
     if alg == "bip341":
-        return std_script(rng, rng.choice(["p2tr", "p2tr", "p2tr", "p2wpkh", "p2pkh"]))
-    return std_script(rng)
+        return std5(rng, rng.choice(["p2tr", "p2tr", "p2tr", "p2wpkh", "p2pkh"]))
+    return std5(rng)
 
 
 def gen_case(rng, alg, n_in, n_out, i, ht, wmode="empty"):
     ins = [rand_ntxin(rng, witness=False, script_sig=[]) for _ in range(n_in)]
     if alg == "bip341" and i < n_in:
         ins[i] = ins[i][:4] + (taproot_witness(rng, wmode),)
-    outs = [(pick(rng, [0, 1, 546, 2**63 - 1], 62), std_script(rng)) for _ in range(n_out)]
+    outs = [(pick(rng, [0, 1, 546, 2**63 - 1], 62), std5(rng)) for _ in range(n_out)]
     tx = (rng.choice([1, 2, 2, 0xFFFFFFFF]), ins, outs, pick(rng, U32B, 32))
     spent = [(pick(rng, [0, 1, 2**63 - 1], 62), spk_for(rng, alg)) for _ in range(n_in)]
     if alg == "bip341" and i < n_in:
@@ -115,15 +127,16 @@ LEGACY_ENS = ["returns()",
               "implies(returns(), result == spec.int_be(" + S + "legacy_digest(tx, i, spent[i][1], hash_type)))"]
 for _ht in LEGACY_TYPES:
     contract(H + "legacy#ht%02x" % _ht, props=("C05",),
-             params={"tx": TX22_LEGACY, "spent": SP22_PKH, "i": IDX2, "hash_type": const(_ht)}, setup=U32Model(),
+             params={"tx": TX22_LEGACY, "spent": SP22_PKH, "i": IDX2, "hash_type": const(_ht)},
              ensures=LEGACY_ENS, gen=gen_alg("legacy", LEGACY_TYPES, fixed_ht=_ht))
 # the two "signs the constant 1" cases of the original algorithm
 contract(H + "legacy#index_out_of_range", props=("C05",),
          params={"tx": TX22_LEGACY, "spent": SP22_PKH, "i": ("choice", [2, 3]), "hash_type": ("choice", LEGACY_TYPES)},
-         setup=U32Model(), ensures=["returns()", "implies(returns(), result == 1 << 248)"] + LEGACY_ENS[1:])
+         ensures=["returns()", "implies(returns(), result == 1 << 248)",
+                  "implies(returns(), result == spec.int_be(" + S + "legacy_digest(tx, i, [], hash_type)))"])
 contract(H + "legacy#single_without_output", props=("C05",),
          params={"tx": TX21_LEGACY, "spent": SP22_PKH, "i": const(1), "hash_type": ("choice", [3, 0x83])},
-         setup=U32Model(), ensures=["returns()", "implies(returns(), result == 1 << 248)"] + LEGACY_ENS[1:])
+         ensures=["returns()", "implies(returns(), result == 1 << 248)"] + LEGACY_ENS[1:])
 
 
 def _with_redeem(rng, d):
@@ -134,7 +147,7 @@ def _with_redeem(rng, d):
 MULTISIG_1OF2 = [const(0x51), "bytes:33", "bytes:33", const(0x52), const(0xAE)]
 contract(H + "legacy_redeem", props=("C05",),
          params={"tx": TX22_LEGACY, "spent": spent_of([const(0xA9), H20, const(0x87)], P2PKH), "i": const(0),
-                 "redeem": lst(*MULTISIG_1OF2), "hash_type": ("choice", LEGACY_TYPES)}, setup=U32Model(),
+                 "redeem": lst(*MULTISIG_1OF2), "hash_type": ("choice", LEGACY_TYPES)},
          ensures=["returns()", "implies(returns(), result == spec.int_be(" + S + "legacy_digest(tx, i, redeem, hash_type)))"],
          gen=gen_alg("legacy", LEGACY_TYPES, extra=_with_redeem))
 
@@ -147,16 +160,16 @@ B143_ENS = ["returns()",
             "implies(returns(), result == spec.int_be(" + S + "bip143_digest(tx, i, " + S + "p2pkh_script(spent[i][1][1]), spent[i][0], hash_type)))"]
 for _ht in LEGACY_TYPES:
     contract(H + "bip143_p2wpkh#ht%02x" % _ht, props=("C05",),
-             params={"tx": TX22_SEGWIT, "spent": SP22_WPKH, "i": IDX2, "hash_type": const(_ht)}, setup=U32Model(),
+             params={"tx": TX22_SEGWIT, "spent": SP22_WPKH, "i": IDX2, "hash_type": const(_ht)},
              ensures=B143_ENS, gen=gen_alg("bip143", LEGACY_TYPES, fixed_ht=_ht))
 # BIP143: SINGLE with no output of the same index -> hashOutputs is 32 zero bytes (no failure, no constant)
 contract(H + "bip143_p2wpkh#single_without_output", props=("C05",),
          params={"tx": TX21_SEGWIT, "spent": SP22_WPKH, "i": const(1), "hash_type": ("choice", [3, 0x83])},
-         setup=U32Model(), ensures=B143_ENS)
+         ensures=B143_ENS)
 
 
 def _with_wsh(rng, d):
-    d["witness_script"] = std_script(rng, rng.choice(["multisig", "p2pkh", "rand"]))
+    d["witness_script"] = std_script(rng, rng.choice(["multisig", "p2pkh"]))
     d["spent"][d["i"]] = (d["spent"][d["i"]][0], std_script(rng, "p2wsh"))
 
 
@@ -167,12 +180,12 @@ def _with_h160(rng, d):
 
 contract(H + "bip143_p2wsh", props=("C05",),
          params={"tx": TX22_SEGWIT, "spent": spent_of([const(0), H32], P2WPKH), "i": const(0),
-                 "witness_script": lst(*MULTISIG_1OF2), "hash_type": ("choice", LEGACY_TYPES)}, setup=U32Model(),
+                 "witness_script": lst(*MULTISIG_1OF2), "hash_type": ("choice", LEGACY_TYPES)},
          ensures=["returns()", "implies(returns(), result == spec.int_be(" + S + "bip143_digest(tx, i, witness_script, spent[i][0], hash_type)))"],
          gen=gen_alg("bip143", LEGACY_TYPES, extra=_with_wsh))
 contract(H + "bip143_p2sh_p2wpkh", props=("C05",),
          params={"tx": TX22_SEGWIT, "spent": spent_of([const(0xA9), H20, const(0x87)], P2WPKH), "i": const(0),
-                 "h160": H20, "hash_type": ("choice", LEGACY_TYPES)}, setup=U32Model(),
+                 "h160": H20, "hash_type": ("choice", LEGACY_TYPES)},
          ensures=["returns()", "implies(returns(), result == spec.int_be(" + S + "bip143_digest(tx, i, " + S + "p2pkh_script(h160), spent[i][0], hash_type)))"],
          gen=gen_alg("bip143", LEGACY_TYPES, extra=_with_h160))
 
@@ -206,21 +219,22 @@ for _ht in TAPROOT_TYPES:
         contract(H + "bip341#%s_ht%02x" % (_wn, _ht), props=("C05",),
                  params={"tx": tx22_taproot(_ws), "spent": SP22_TR_MIXED, "i": const(0), "ext_flag": const(0), "hash_type": const(_ht)},
                  requires=["tx[1][0][4][1][0] == 0x50"] if _wn == "key_annex" else [],
-                 setup=U32Model(), ensures=B341_ENS,
-                 gen=gen_alg("bip341", TAPROOT_TYPES, wmodes=("empty", "key", "key+annex"), extra=_ext(0), fixed_ht=_ht) if _wn == "key_annex" else None)
+                 ensures=B341_ENS,
+                 gen=gen_alg("bip341", TAPROOT_TYPES, wmodes=("empty", "key", "key+annex"), extra=_ext(0), fixed_ht=_ht) if _wn == "key" else None)
 contract(H + "bip341#second_input", props=("C05",),
          params={"tx": ntx([ntxin([], []), ntxin([], [SIG64])], [nout63(P2TR), nout63(P2PKH)]), "spent": spent_of(P2WPKH, P2TR),
                  "i": const(1), "ext_flag": const(0), "hash_type": ("choice", TAPROOT_TYPES)},
-         setup=U32Model(), ensures=B341_ENS)
+         ensures=B341_ENS)
 contract(H + "bip341#single_without_output", props=("C05",),
          params={"tx": ntx([ntxin([], []), ntxin([], [])], [nout63(P2TR)]), "spent": SP22_TR,
                  "i": const(1), "ext_flag": const(0), "hash_type": ("choice", [3, 0x83])},
-         setup=U32Model(), ensures=B341_ENS)
+         ensures=B341_ENS)
 # script path (BIP342 extension): [arg, script, control block] (+ annex)
 contract(H + "bip341#script_path", props=("C05",),
          params={"tx": tx22_taproot([SIG64, ("bytes", 1, 40), "bytes:33"]), "spent": SP22_TR, "i": const(0), "ext_flag": const(1),
                  "hash_type": ("choice", TAPROOT_TYPES)},
-         setup=U32Model(), ensures=B341_ENS,
+         ensures=B341_ENS,
+         tiers=(),     # deductive job disabled: ControlBlock.parse -> S256Point.parse_xonly (field square root) does not terminate in the engine
          gen=gen_alg("bip341", TAPROOT_TYPES, wmodes=("script", "script+annex"), extra=_ext(1)))
 
 
@@ -272,13 +286,13 @@ def gen_dispatch(kinds, types):
 contract(H + "dispatch#legacy_and_v0", props=("C05",),
          params={"tx": ntx([ntxin([], [("bytes", 9, 73), "bytes:33"]), ntxin([], [])], [nout63(P2PKH), nout63(P2WPKH)]),
                  "spent": spent_of(P2WPKH, P2PKH), "i": IDX2, "hash_type": ("choice", LEGACY_TYPES)},
-         setup=U32Model(), ensures=DISPATCH_ENS,
+         ensures=DISPATCH_ENS,
          gen=gen_dispatch(["p2pkh", "bare_multisig", "p2sh_multisig", "p2wpkh", "p2sh_p2wpkh", "p2wsh", "p2sh_p2wsh"], LEGACY_TYPES))
 for _wn, (_ws, _wm) in (("key", ([SIG64], None)), ("key_annex", ([SIG64, ("bytes", 1, 40)], None))):
     contract(H + "dispatch#taproot_" + _wn, props=("C05",),
              params={"tx": tx22_taproot(_ws), "spent": SP22_TR, "i": const(0), "hash_type": ("choice", TAPROOT_TYPES)},
              requires=["tx[1][0][4][1][0] == 0x50"] if _wn == "key_annex" else [],
-             setup=U32Model(), ensures=DISPATCH_ENS,
+             ensures=DISPATCH_ENS,
              gen=gen_dispatch(["p2tr:key", "p2tr:key+annex", "p2tr:script", "p2tr:script+annex"], TAPROOT_TYPES) if _wn == "key" else None)
 
 
@@ -309,41 +323,34 @@ def _gen_hist(alg, field, types):
 _K = ("choice", [0, 1])
 contract(H + "bip143_after_output_edit", props=("C05",),
          params={"tx": TX22_SEGWIT, "spent": SP22_WPKH, "i": const(0), "hash_type": ("choice", [1, 3, 0x81]), "k": _K, "new_amount": A63},
-         setup=U32Model(),
          ensures=["returns()", "implies(returns(), result == spec.int_be(" + S + "bip143_digest(" + S + "set_out_amount(tx, k, new_amount), i, "
                   + S + "p2pkh_script(spent[i][1][1]), spent[i][0], hash_type)))"],
          gen=_gen_hist("bip143", "out", LEGACY_TYPES))
 contract(H + "bip143_after_sequence_edit", props=("C05",),
          params={"tx": TX22_SEGWIT, "spent": SP22_WPKH, "i": const(0), "hash_type": ("choice", [1, 2]), "k": _K, "new_sequence": U32},
-         setup=U32Model(),
          ensures=["returns()", "implies(returns(), result == spec.int_be(" + S + "bip143_digest(" + S + "set_sequence(tx, k, new_sequence), i, "
                   + S + "p2pkh_script(spent[i][1][1]), spent[i][0], hash_type)))"],
          gen=_gen_hist("bip143", "seq", LEGACY_TYPES))
 contract(H + "bip143_after_prevout_edit", props=("C05",),
          params={"tx": TX22_SEGWIT, "spent": SP22_WPKH, "i": const(0), "hash_type": ("choice", [1, 0x81]), "k": _K, "new_index": U32},
-         setup=U32Model(),
          ensures=["returns()", "implies(returns(), result == spec.int_be(" + S + "bip143_digest(" + S + "set_prev_index(tx, k, new_index), i, "
                   + S + "p2pkh_script(spent[i][1][1]), spent[i][0], hash_type)))"],
          gen=_gen_hist("bip143", "idx", LEGACY_TYPES))
 contract(H + "bip341_after_output_edit", props=("C05",),
          params={"tx": tx22_taproot([]), "spent": SP22_TR, "i": const(0), "hash_type": ("choice", [0, 1, 0x81]), "k": _K, "new_amount": A63},
-         setup=U32Model(),
          ensures=["returns()", "implies(returns(), result == " + S + "bip341_digest(" + S + "set_out_amount(tx, k, new_amount), i, spent, hash_type, 0, None))"],
          gen=_gen_hist("bip341", "out", TAPROOT_TYPES))
 contract(H + "bip341_after_sequence_edit", props=("C05",),
          params={"tx": tx22_taproot([]), "spent": SP22_TR, "i": const(0), "hash_type": ("choice", [0, 2]), "k": _K, "new_sequence": U32},
-         setup=U32Model(),
          ensures=["returns()", "implies(returns(), result == " + S + "bip341_digest(" + S + "set_sequence(tx, k, new_sequence), i, spent, hash_type, 0, None))"],
          gen=_gen_hist("bip341", "seq", TAPROOT_TYPES))
 contract(H + "bip341_after_spent_amount_edit", props=("C05",),
          params={"tx": tx22_taproot([]), "spent": SP22_TR, "i": const(0), "hash_type": ("choice", [0, 3]), "k": _K, "new_value": A63},
-         setup=U32Model(),
          ensures=["returns()", "implies(returns(), result == " + S + "bip341_digest(tx, i, " + S + "set_spent_amount(spent, k, new_value), hash_type, 0, None))"],
          gen=_gen_hist("bip341", "val", TAPROOT_TYPES))
 # the legacy algorithm keeps no midstate: the same two-step history must (and does) agree with the spec
 contract(H + "legacy_after_output_edit", props=("C05",),
          params={"tx": TX22_LEGACY, "spent": SP22_PKH, "i": const(0), "hash_type": const(1), "k": _K, "new_amount": A63},
-         setup=U32Model(),
          ensures=["returns()", "implies(returns(), result == spec.int_be(" + S + "legacy_digest(" + S + "set_out_amount(tx, k, new_amount), i, spent[i][1], hash_type)))"],
          gen=_gen_hist("legacy", "out", [1]))
 
@@ -355,5 +362,5 @@ def _gen_fresh(rng, tier):
 
 
 contract(H + "bip341_fresh_helper_calls", props=("C05",),
-         params={"tx": tx22_taproot([]), "spent": SP22_TR}, setup=U32Model(),
+         params={"tx": tx22_taproot([]), "spent": SP22_TR},
          ensures=["returns()"], gen=_gen_fresh)
